@@ -12,6 +12,7 @@ import (
 	"encoding/binary"
 	"encoding/json"
 	"fmt"
+	"io"
 	"io/ioutil"
 	"os"
 	"path"
@@ -598,6 +599,12 @@ func openStore(dir string, options StoreOptions) (*Store, error) {
 		err = checkHeader(file)
 		if err != nil {
 			file.Close()
+			if err == io.EOF || err == io.ErrUnexpectedEOF {
+				// The file is shorter than a header: its creation was
+				// interrupted (for example a crash right after a
+				// compaction created it), so try the next older file.
+				continue
+			}
 			return nil, err
 		}
 
